@@ -65,6 +65,7 @@ Definition opn (ps : PSo) (_ _ _ : Z) : PSo := ps.     (* every pool is used at 
 Definition SENDER : Z := 1.
 Definition PROVIDER : Z := 2.
 Definition BYSTANDER : Z := 3.
+Definition RECEIVER : Z := 4.     (* receiver of an incoming (IBC) swap; untouched otherwise *)
 Definition opacct (pid : Z) : Z := 1000 + 2 * pid.
 
 Definition balrow : Type := (Z * Z * Z)%type.     (* account, denom, amount *)
@@ -87,7 +88,9 @@ Record c03_case := {
   c_post : list balrow;
   c_msg : res (rres * Z * Z);   (* response: result tree, interface fee, amount_out *)
   c_query : res (rres * Z * Z); (* query on the pre-state: tree, fee, amount_out | amount_in *)
-  c_variant : variant           (* probed once per run on the real code, see Route.v *)
+  c_variant : variant;          (* probed once per run on the real code, see Route.v *)
+  c_incoming : bool             (* Keeper.SwapIncomingFund: account 1 is the swap module account holding
+                                   the incoming amount (= amount_in | max_amount_in), account 4 the receiver *)
 }.
 
 Definition ost := st PSo.
@@ -97,6 +100,11 @@ Definition init (c : c03_case) : ost :=
 
 Definition m_msg (c : c03_case) : res (ost * swap_resp) :=
   let prov := if c_prov c then Some PROVIDER else None in
+  if c_incoming c
+  then (if c_out c
+        then swap_incoming_fund PSo opq_out opx_in opx_out opn opn opacct FIXED (c_rate c) SENDER RECEIVER prov true (c_route c) (c_limit c) (c_amount c) (init c)
+        else swap_incoming_fund PSo opq_out opx_in opx_out opn opn opacct FIXED (c_rate c) SENDER RECEIVER prov false (c_route c) (c_amount c) (c_limit c) (init c))
+  else
   if c_out c
   then msg_swap_out PSo opq_out opx_out opn opacct FIXED (c_rate c) (c_variant c) SENDER prov (c_route c) (c_limit c) (c_amount c) (init c)
   else msg_swap_in PSo opx_in opn opacct FIXED (c_rate c) (c_variant c) SENDER prov (c_route c) (c_amount c) (c_limit c) (init c).
@@ -170,7 +178,7 @@ Definition dout_c (c : c03_case) := r_out (c_route c).
 (* 1: exact-in: the sender pays exactly amount_in, receives the reported net amount which is
       at least min_amount_out, nothing else of the sender changes *)
 Definition mon_exact_in (c : c03_case) : bool :=
-  match c_out c, c_msg c with
+  match c_out c || c_incoming c, c_msg c with
   | false, Ok (t, fee, amt) =>
       (c_limit c <=? amt) &&
       forallb (fun d => delta c SENDER d =?
@@ -181,7 +189,7 @@ Definition mon_exact_in (c : c03_case) : bool :=
 (* 2: exact-out: the sender receives exactly amount_out, pays the reported input which is at
       most max_amount_in, nothing else changes *)
 Definition mon_exact_out (c : c03_case) : bool :=
-  match c_out c, c_msg c with
+  match c_out c && negb (c_incoming c), c_msg c with
   | true, Ok (t, fee, amt) =>
       (rr_ain t <=? c_limit c) &&
       forallb (fun d => delta c SENDER d =?
@@ -199,7 +207,8 @@ Definition mon_response (c : c03_case) : bool :=
        else (rr_ain t =? c_amount c) && (amt =? rr_aout t - fee)) &&
       forallb (fun d => delta c PROVIDER d =? (if c_prov c && (d =? dout_c c) then fee else 0))
               (denoms_of (c_pre c) PROVIDER) &&
-      forallb (fun d => delta c BYSTANDER d =? 0) (denoms_of (c_pre c) BYSTANDER)
+      forallb (fun d => delta c BYSTANDER d =? 0) (denoms_of (c_pre c) BYSTANDER) &&
+      (c_incoming c || forallb (fun d => delta c RECEIVER d =? 0) (denoms_of (c_pre c) RECEIVER))
   | _ => true
   end.
 (* 4: the query on the pre-state reports what the message then did *)
@@ -259,6 +268,19 @@ Definition hop_contract (tb : list hop_obs) (h : hop_obs) : bool :=
   else true.
 Definition mon_hops (c : c03_case) : bool := forallb (hop_contract (c_table c)) (c_table c).
 
+(* 8: a swap arriving over IBC (SwapIncomingFund): the module account pays the reported input out
+      of the incoming amount and keeps nothing of the output; the receiver gets exactly the net
+      output, which is amount_out (exact-out) resp. at least min_amount_out (exact-in) *)
+Definition mon_incoming (c : c03_case) : bool :=
+  match c_incoming c, c_msg c with
+  | true, Ok (t, fee, net) =>
+      (if c_out c then (net =? c_amount c) && (rr_ain t <=? c_limit c)
+       else (rr_ain t =? c_amount c) && (c_limit c <=? net)) &&
+      forallb (fun d => delta c SENDER d =? - (if d =? din_c c then rr_ain t else 0)) (denoms_of (c_pre c) SENDER) &&
+      forallb (fun d => delta c RECEIVER d =? (if d =? dout_c c then net else 0)) (denoms_of (c_pre c) RECEIVER)
+  | _, _ => true
+  end.
+
 (* trigger 1: a pool hop filled partially (consumed less than the exact input / produced less
    than the exact output) -- liquiditypool stops at the price limit without an error; repaired
    by notes/patches/C03-no-partial-fill.patch *)
@@ -270,7 +292,7 @@ Definition trig_partial (c : c03_case) : bool :=
 Definition c03_check (c : c03_case) : list Z :=
   flag 0 (corr_msg c && corr_query c) ++
   flag 1 (mon_exact_in c) ++ flag 2 (mon_exact_out c) ++ flag 3 (mon_response c) ++
-  flag 4 (mon_query c) ++ flag 5 (mon_only_input c) ++ flag 6 (mon_split c) ++ flag 7 (mon_hops c) ++
+  flag 4 (mon_query c) ++ flag 5 (mon_only_input c) ++ flag 6 (mon_split c) ++ flag 7 (mon_hops c) ++ flag 8 (mon_incoming c) ++
   (if trig_partial c then [101] else []).
 
 Definition run := run_cases c03_check.
